@@ -48,11 +48,30 @@ def run(ctx) -> None:
     ctx.rule("d.refusal-atomic", "Table.__setitem__ writes several columns one after another, and each column write can be refused "
                                  "with AliasError: before the first store every target column is asked check_writable (a loop over the same "
                                  "target columns), so that a refused table assignment changes nothing", 1)
+    ctx.rule("d.refusal-exact", "the refusal itself is exact (shared with C15.d): check_writable raises exactly when more than one LIVE "
+                                "vector shares the storage; register / unregister keep exactly the live sharers", 3)
+    ctx.rule("e.row-snapshot", "a Row obtained by indexing or iteration reads a SNAPSHOT of the column storage tuples taken when it was "
+                               "made (shared with C02.d): later writes to the table do not show through a held row", 3)
     ctx.section("a", _rule_a, ctx)
     ctx.section("b", _rule_b, ctx)
     ctx.section("c", _rule_c, ctx)
     ctx.section("d", _rule_d, ctx)
     ctx.section("d-table", _rule_d_table, ctx)
+    from . import c02, c15
+
+    class _As:
+        """the shared rule reports under this property's rule name"""
+        def __init__(self, rule):
+            self._rule = rule
+            self.prog = ctx.prog
+
+        def ob(self, rule, func, role, ok, what, node=None, message="", witness=""):
+            return ctx.ob(self._rule, func, role, ok, what, node, message, witness)
+
+        def info(self, msg):
+            ctx.info(msg)
+    ctx.section("d-exact", c15._tracker, _As("d.refusal-exact"))
+    ctx.section("e-rows", c02._row_view, _As("e.row-snapshot"))
     ctx.not_decided += [
         "mutable ELEMENTS (a list stored inside an object vector is shared by shallow copies)",
         "that copy()/slicing produce equal values (C07)",
